@@ -29,7 +29,7 @@ import (
 )
 
 func init() {
-	if len(os.Args) >= 3 && os.Args[1] == "wsbridge-child" {
+	if _, child := childMode(); child {
 		return // the spawned child: its stdout is the bridge, RegisterDevDirective prints there
 	}
 	httpserver.RegisterDevDirective("verifwsouter", "websocket")
@@ -283,11 +283,12 @@ func (s *sideServer) serve(c net.Conn) {
 		return
 	}
 	cl := &childLink{hello: hello, c: c, enc: json.NewEncoder(c)}
+	// the mode first: once the command is visible to the exchange it may be sent orders at once
+	cl.send(sideMsg{Op: "mode", IgnInt: ex.ignInt, EofExit: ex.eofExit})
 	ex.mu.Lock()
 	ex.children = append(ex.children, cl)
 	ex.logLocked(event{"ev": "spawn", "pid": hello.Pid})
 	ex.mu.Unlock()
-	cl.send(sideMsg{Op: "mode", IgnInt: ex.ignInt, EofExit: ex.eofExit})
 	for {
 		var m sideMsg
 		if err := dec.Decode(&m); err != nil {
@@ -321,6 +322,12 @@ func (s *sideServer) serve(c net.Conn) {
 				cl.said = true
 				ex.logLocked(event{"ev": "pexit", "why": "sig"})
 			}
+			ex.mu.Unlock()
+			cl.send(sideMsg{Op: "ack"})
+		case "exiting":
+			ex.mu.Lock()
+			cl.said = true
+			ex.logLocked(event{"ev": "pexit", "why": m.S})
 			ex.mu.Unlock()
 			cl.send(sideMsg{Op: "ack"})
 		case "wrote":
